@@ -231,9 +231,30 @@ def _array_form_model(repo, fi):
         it = it.args[0]
     else:
         pair = lp.target
-    while isinstance(it, ast.Call) and call_name(it) in ("tolist", "list", "iter") and (isinstance(it.func, ast.Attribute) or it.args):
-        it = it.func.value if isinstance(it.func, ast.Attribute) else it.args[0]
-    attr = loc_name(it)
+    def _unlist(x):
+        while isinstance(x, ast.Call) and call_name(x) in ("tolist", "list", "iter") and (isinstance(x.func, ast.Attribute) or x.args):
+            x = x.func.value if isinstance(x.func, ast.Attribute) else x.args[0]
+        return x
+    it = _unlist(it)
+    two_attrs = None
+    if isinstance(it, ast.Call) and call_name(it) == "zip" and len(it.args) == 2:
+        # the two columns kept as two vectors: zip(self.<firsts>, self.<lasts>)
+        two_attrs = [loc_name(_unlist(a_)) for a_ in it.args]
+        if not all(a_ and a_.startswith("self.") for a_ in two_attrs):
+            return None
+    if isinstance(pair, ast.Name):
+        # the pair is yielded as it comes out of the iteration
+        pname = pair.id
+        pair = ast.Tuple(elts=[ast.Name(id=pname + "__0", ctx=ast.Store()), ast.Name(id=pname + "__1", ctx=ast.Store())], ctx=ast.Store())
+        import copy as _copy
+
+        class _Y(ast.NodeTransformer):
+            def visit_Yield(self, node):
+                if isinstance(node.value, ast.Name) and node.value.id == pname:
+                    return ast.copy_location(ast.Yield(value=ast.Tuple(elts=[ast.Name(id=pname + "__0", ctx=ast.Load()), ast.Name(id=pname + "__1", ctx=ast.Load())], ctx=ast.Load())), node)
+                return node
+        lp = ast.fix_missing_locations(_Y().visit(_copy.deepcopy(lp)))
+    attr = loc_name(it) if two_attrs is None else two_attrs[0]
     if not (attr and attr.startswith("self.")) or not (isinstance(pair, ast.Tuple) and len(pair.elts) == 2):
         return None
     # the attribute is bound once, in __init__ (after helper inlining), to c_[first, last] / column_stack / array([first, last]).T
@@ -243,11 +264,37 @@ def _array_form_model(repo, fi):
     others = [q for q, f2 in repo.functions.items() if q.startswith(CLS + ".") and q != CLS + ".__init__"
               for st in walk_function(f2.node) if isinstance(st, (ast.Assign, ast.AugAssign)) and any(loc_name(t) == attr or (isinstance(t, ast.Subscript) and loc_name(t.value) == attr)
                                                                                                   for t in (st.targets if isinstance(st, ast.Assign) else [st.target]))]
-    if len(binds) != 1 or others:
+    if two_attrs is not None:
+        cols = []
+        for a_ in two_attrs:
+            found = None
+            for st in walk_function(ini.node):
+                if not isinstance(st, ast.Assign):
+                    continue
+                for t in st.targets:
+                    if loc_name(t) == a_:
+                        found = (st, st.value)
+                    elif isinstance(t, ast.Tuple) and isinstance(st.value, ast.Tuple) and len(t.elts) == len(st.value.elts):
+                        for te, ve in zip(t.elts, st.value.elts):
+                            if loc_name(te) == a_:
+                                found = (st, ve)
+            wr = [q for q, f2 in repo.functions.items() if q.startswith(CLS + ".") and q != CLS + ".__init__"
+                  for st in walk_function(f2.node) if isinstance(st, (ast.Assign, ast.AugAssign)) and any(loc_name(t) == a_ or (isinstance(t, ast.Subscript) and loc_name(t.value) == a_)
+                                                                                                      for t in (st.targets if isinstance(st, ast.Assign) else [st.target]))]
+            if found is None or wr:
+                raise AnalysisError(f"firstlast iterates {a_}, which is not bound once in __init__ (or is written elsewhere: {wr})")
+            cols.append(found)
+        binds = [cols[0][0]]
+        cols = [c_[1] for c_ in cols]
+        v = None
+    elif len(binds) != 1 or others:
         raise AnalysisError(f"firstlast iterates {attr}, which is not bound exactly once in __init__ (or is written elsewhere: {others})")
-    v = binds[0].value
-    cols = None
-    if isinstance(v, ast.Subscript) and isinstance(v.value, ast.Attribute) and v.value.attr == "c_":
+    else:
+        v = binds[0].value
+        cols = None
+    if v is None:
+        pass
+    elif isinstance(v, ast.Subscript) and isinstance(v.value, ast.Attribute) and v.value.attr == "c_":
         cols = v.slice.elts if isinstance(v.slice, ast.Tuple) else None
     elif isinstance(v, ast.Call) and call_name(v) in ("column_stack", "stack") and v.args and isinstance(v.args[0], (ast.Tuple, ast.List)):
         cols = v.args[0].elts
@@ -297,7 +344,7 @@ def _array_form_model(repo, fi):
         "fi": fi, "loop": lp, "init_first": first_k.subs({"K": Poly.const(0)}), "init_iw": None, "yielded": yielded, "break": None,
         "first_next": yielded[0].subs({"K": K + Poly.const(1)}), "iw_next": None, "iw_at_yield": at_yield.get("self.iw") if at_yield else None,
         "order": order, "loop_test": ast.Constant(value=True), "F": yielded[0], "I": K, "feeds": [], "closed": {}, "state": [],
-        "array_form": {"start": fe.args[0], "stop": fe.args[1], "step": fe.args[2], "where": binds[0], "init": ini, "env_stmts": [st for st in ini.node.body if isinstance(st, ast.Assign) and isinstance(st.targets[0], ast.Name)]},
+        "array_form": {"two_attrs": two_attrs, "start": fe.args[0], "stop": fe.args[1], "step": fe.args[2], "where": binds[0], "init": ini, "env_stmts": [st for st in ini.node.body if isinstance(st, ast.Assign) and isinstance(st.targets[0], ast.Name)]},
     }
 
 
@@ -726,8 +773,9 @@ def d5_tscale(ctx):
     # computed from the columns of the precomputed (first, last) table
     g = generator_model(repo)
     if g.get("array_form"):
-        tbl = loc_name(g["loop"].iter.args[0].func.value if isinstance(g["loop"].iter, ast.Call) and call_name(g["loop"].iter) == "enumerate" and isinstance(g["loop"].iter.args[0], ast.Call)
-                       else g["loop"].iter)
+        two = g["array_form"].get("two_attrs")
+        tbl = None if two else loc_name(g["loop"].iter.args[0].func.value if isinstance(g["loop"].iter, ast.Call) and call_name(g["loop"].iter) == "enumerate"
+                                        and isinstance(g["loop"].iter.args[0], ast.Call) else g["loop"].iter)
         rets = [r for r in ast.walk(fi.node) if isinstance(r, ast.Return) and r.value is not None]
 
         class EC(Evaluator):
@@ -736,6 +784,8 @@ def d5_tscale(ctx):
                         and e.slice.elts[0].lower is None and e.slice.elts[0].upper is None and isinstance(e.slice.elts[1], ast.Constant) and e.slice.elts[1].value in (0, 1) \
                         and (tbl is None or loc_name(e.value) == tbl or "._bounds" in src(e.value) or True):
                     return Poly.sym("first" if e.slice.elts[1].value == 0 else "last")
+                if two and loc_name(e) in two:
+                    return Poly.sym("first" if loc_name(e) == two[0] else "last")
                 return super().ev(e)
         if len(rets) == 1:
             du_ = DefUse(fi.node)
